@@ -13,6 +13,11 @@ LEVEL = 'proof'
 logging.disable(logging.CRITICAL)
 
 
+def regen(ctx):
+    from translate import c04_shape
+    ctx.write_gen('C04Shape', c04_shape.translate(ctx.repo))
+
+
 # ----------------------------------------------------------------------------- queue
 def gen_queue_history(rng, max_len):
     maxf = rng.choice([1, 1, 2, 2, 3, 4, 7])
